@@ -1,5 +1,6 @@
 import ScVerif.Base.Line
 import ScVerif.C05.Codec
+import ScVerif.C05.Opts
 import ScVerif.C06.Get
 /-!
 Driver handler shared by driverC05 and driverC06 (stateful: the state is the schema sent by the
@@ -15,6 +16,12 @@ harness in a `schema` line, taken from the real descriptors through protoreflect
   merge <ty> <W> <M> <R> <dst> <src>                -> <dst'> <src'> | panic
   set <ty> <resW> <moreW> <all:0|1> <M> <R> <stored> <src>
                                                     -> err:<code> | panic | <stored'> <src'>
+  wseq <ty> <ropts> <stored> <steps>                -> <outcome> { " | " <outcome> } | config-panic
+       ropts := '_' | ropt {';' ropt}     ropt := 'F'<mask> | 'P'<mask>      (WithWritableFields / WithWritablePaths)
+       steps := step {'|' step}           step := wopts '@' ['+'] <src>      ('+': Collection.Add of a new item)
+       wopts := '_' | wopt {';' wopt}     wopt := 'U'<mask> | 'u'<mask> | 'R'<mask> | 'w'<mask> | 'A'
+                (WithUpdateMask, WithMoreUpdateMask, WithResetMask, WithMoreWritableFields, WithAllFieldsWritable)
+       outcome as for `set`; a panic ends the sequence
   rvalidate <ty> <mask>                             -> true|false          (ResponseFilter.Validate)
   rfilter <mask> <msg>                              -> msg | panic         (ResponseFilter.Filter/FilterClone)
   project <mask> <msg>                              -> msg                 (C06 specification)
@@ -28,6 +35,42 @@ def showOut (o : Out Fields) : String :=
   | none => "panic"
 
 def pathsOf (m : Option (List Path)) : List Path := m.getD []
+
+def parseList {α} (f : String → Option α) (s : String) : Option (List α) :=
+  if s = "_" then some [] else (s.splitOn ";").mapM f
+
+def parseWOpt (s : String) : Option WOpt :=
+  if s = "A" then some .allWritable
+  else
+    let rest := (s.drop 1).toString
+    match s.front, parseMask rest with
+    | 'U', some m => some (.updateMask m)
+    | 'u', some m => some (.moreUpdateMask m)
+    | 'R', some m => some (.resetMask m)
+    | 'w', some m => some (.moreWritable m)
+    | _, _ => none
+
+def parseROpt (s : String) : Option ROpt :=
+  let rest := (s.drop 1).toString
+  match s.front, parseMask rest with
+  | 'F', some m => some (.writableFields m)
+  | 'P', some (some ps) => some (.writablePaths ps)
+  | _, _ => none
+
+def parseStep (s : String) : Option Step :=
+  match s.splitOn "@" with
+  | [o, m] =>
+    let fresh := m.startsWith "+"
+    let m := if fresh then (m.drop 1).toString else m
+    match parseList parseWOpt o, parseMessage m with
+    | some opts, some src => some ⟨opts, src, fresh⟩
+    | _, _ => none
+  | _ => none
+
+def showSetOut : SetOut → String
+  | .err c => "err:" ++ c.show
+  | .panic => "panic"
+  | .ok st src => showMsg st ++ " " ++ showMsg src
 
 def handleS (S : Schema) (toks : List String) : Schema × String :=
   let bad := (S, "!bad-op")
@@ -84,11 +127,15 @@ def handleS (S : Schema) (toks : List String) : Schema × String :=
         parseMessage d, parseMessage s with
     | some ty, some rw, some mw, some all, some m, some r, some d, some s =>
       let u := fieldUpdater rw (moreWritable mw) all m r
-      match valueSet S ty u d s with
-      | .err c => (S, "err:" ++ c.show)
-      | .panic => (S, "panic")
-      | .ok st src => (S, showMsg st ++ " " ++ showMsg src)
+      (S, showSetOut (valueSet S ty u d s))
     | _, _, _, _, _, _, _, _ => bad
+  | ["wseq", ty, ro, d, steps] =>
+    match ty.toNat?, parseList parseROpt ro, parseMessage d, (steps.splitOn "|").mapM parseStep with
+    | some ty, some ro, some d, some steps =>
+      match resourceWritable S ty ro with
+      | none => (S, "config-panic")
+      | some resW => (S, " | ".intercalate ((runSeq S ty resW d steps).map showSetOut))
+    | _, _, _, _ => bad
   | ["rvalidate", ty, m] =>
     match ty.toNat?, parseMask m with
     | some ty, some m => (S, Line.showBool (C06.validate S ty m))
